@@ -123,7 +123,7 @@ def run(fx, chk, tier):
                     disp = ("if", m)
                     break
                 # `if let BoxType::X = name { .. } else { .. }` is a two-arm match on the type
-                if m.get("k") == "if" and m["cond"].get("k") == "letx" and hirq.path_str(m["cond"]["init"]) == nm and m["cond"]["pat"].get("k") in ("path", "tuplestruct", "struct"):
+                if m.get("k") == "if" and m["cond"].get("k") == "letx" and hirq.path_str(m["cond"]["init"]) == nm and m["cond"]["pat"].get("k") in ("path", "tuplestruct", "struct", "expr"):
                     disp = ("match", {"arms": [{"pat": m["cond"]["pat"], "body": m["then"]}, {"pat": {"k": "wild"}, "body": m.get("else") or {"k": "block", "stmts": []}}]})
                     break
             if disp is None:
